@@ -161,21 +161,23 @@ func record(res *hx.Result, c ecx.Case, o ecx.Outcome) {
 			res.Count("write.empty-blob")
 		}
 		desc := fmt.Sprintf("d=%d p=%d size=%d failed shard writes=%v: Add ok=%v (%s), read -> %s %s", c.D, c.P, c.Size, c.WFail, o.AddOK, o.Msg, className(o.Class), o.Msg2)
-		switch {
-		case o.Class == ecx.Panic:
-			res.Fail("write:panic", desc, c)
-		case c.Size == 0:
+		// each clause of the write property is judged on its own (a later failure must not hide an earlier one)
+		if c.Size == 0 {
 			// reedsolomon.Split rejects an empty blob: Add fails before any write (guard of C25_write)
 			if o.AddOK {
 				res.Fail("write:empty-blob-accepted", desc, c)
 			}
-		case o.AddOK != (nf <= c.P):
-			res.Fail("write:tolerance", desc, c)
-		case o.AddOK && o.Class != ecx.OkEqual:
-			res.Fail("write:unreadable-after-success", desc, c)
-		default:
+		} else {
+			if o.AddOK != (nf <= c.P) {
+				res.Fail("write:tolerance", desc, c)
+			}
+			if o.Class == ecx.Panic {
+				res.Fail("write:panic", desc, c)
+			} else if o.AddOK && o.Class != ecx.OkEqual {
+				res.Fail("write:unreadable-after-success", desc, c)
+			}
 			for i, w := range o.Written {
-				if w == c.WFail[i] {
+				if i < len(c.WFail) && w == c.WFail[i] {
 					res.Fail("write:shard-content", desc+fmt.Sprintf(" (shard %d written=%v)", i, w), c)
 					break
 				}
